@@ -521,7 +521,8 @@ func init() {
 		explain: "R19.1 every loop of every function reachable from the router and its handlers (service layer and library) is a counted loop with a bound ≤ 2^24 derived from constants, dominating gates or container lengths — request fields reach the exported library functions unconstrained — or a range / constant-growth loop; in particular the client-chosen HOTP/TOTP windows are ≤ 10 at their loops; " +
 			"R19.2 the server's Handler is Chain(..., Recovery, ...)(routers), Chain applies every middleware of its list, and Recovery has the shape defer{recover() → 5xx status}; next(ctx); R19.3 ReadTimeout, WriteTimeout and MaxRequestBodySize are positive constants; " +
 			"R19.6 the service layer keeps no request state (requests decoded into per-request locals, no pooled request objects, no package variable written, no locks), so a well-formed request is answered the same after any history; R19.5 no function on the request path (handlers, service layer, library) writes a package-level variable: request goroutines share no writable state (a concurrent map write is a fatal error that Recovery cannot catch); R19.4 every error test in every handler leads to writeError with a constant 4xx/5xx status followed by return, writeError sets the status it is given, success paths set 200, unknown paths 404. " +
-			"The loop inside the panic-recovery stack walk (runtime.Frames.Next over a fixed 32-entry buffer) is whitelisted by the callee it polls. A string carried round a loop over request data and rebuilt by concatenation with itself or a slice of itself (quadratic work) is reported. The router, server constructor, middleware chain, recovering middleware, error writer and stack-walk helper are identified by what they do, not by name. Not decided: actual latency, other cost classes beyond loop bounds, fasthttp internals, OS limits.",
+			"The loop inside the panic-recovery stack walk (runtime.Frames.Next over a fixed 32-entry buffer) is whitelisted by the callee it polls. A string carried round a loop over request data and rebuilt by concatenation with itself or a slice of itself (quadratic work) is reported. The router, server constructor, middleware chain, recovering middleware, error writer and stack-walk helper are identified by what they do, not by name. Not decided: actual latency, other cost classes beyond loop bounds, fasthttp internals, OS limits. " +
+			"R19.2 every middleware of the served chain is transparent (its handler calls next itself, with its ctx, on every path to a normal return, and uses it for nothing else), and in the handlers of the middlewares listed before the recovering one every index and slice expression is proved in bounds (a panic there has nobody to catch it).",
 		trusted:  []string{"fasthttp enforces ReadTimeout/WriteTimeout/MaxRequestBodySize", "runtime.Frames.Next terminates over a fixed-size pc buffer"},
 		quick:    []Config{CfgNative},
 		thorough: []Config{CfgNative, Cfg386},
